@@ -69,7 +69,8 @@ class LMEPersonalizeAlgorithm(PersonalizeAlgorithm[LMEModel, IndividualParameter
             "ages_std"
         ]
 
-        X = sm.add_constant(ages_norm, prepend=True, has_constant="add")
+        # design matrix [1, age] (also well-defined for an individual without any observed value)
+        X = np.column_stack((np.ones_like(ages_norm), ages_norm))
         residuals = values - X @ model.parameters["fe_params"]
 
         cov_re_unscaled_inv = model.parameters["cov_re_unscaled_inv"]
